@@ -201,3 +201,22 @@
         &&& (j >= 0 ==> exists|d: RustDocument| #[trigger] content_ok(d, elem_kids(n)[j], fs.take(fs.len() - at.len())))
     }
 
+//# section: facet-spec
+    // ---- C07 (generator half): a facet of a restriction is its attribute of that name or, failing that, the `value` of the first child element of that name
+    pub open spec fn opt_view(o: Option<String>) -> Option<Seq<char>> { match o { Some(v) => Some(v@), None => None } }
+    pub open spec fn first_named_kid(n: Node, name: Seq<char>, k: Node) -> bool {
+        exists|i: int| 0 <= i < all_kids(n).len() && #[trigger] all_kids(n)[i] == k && tag(k) == name
+            && forall|j: int| 0 <= j < i ==> tag(#[trigger] all_kids(n)[j]) != name
+    }
+    pub open spec fn no_named_kid(n: Node, name: Seq<char>) -> bool { forall|i: int| 0 <= i < all_kids(n).len() ==> tag(#[trigger] all_kids(n)[i]) != name }
+    // the facet text is compared up to surrounding white space (XSD collapses white space in facet literals; the writer trims before parsing)
+    pub open spec fn same_facet(a: Option<Seq<char>>, b: Option<Seq<char>>) -> bool {
+        match (a, b) { (Some(x), Some(y)) => crate::stdspec::trim_spec(x) == crate::stdspec::trim_spec(y), (None, None) => true, _ => false }
+    }
+    pub open spec fn facet_is(n: Node, name: Seq<char>, old_v: Option<Seq<char>>, new_v: Option<Seq<char>>) -> bool {
+        match attr(n, name) {
+            Some(v) => same_facet(new_v, Some(v)),
+            None => (no_named_kid(n, name) ==> same_facet(new_v, old_v))
+                && (forall|k: Node| first_named_kid(n, name, k) ==> same_facet(new_v, match attr(k, "value"@) { Some(v) => Some(v), None => old_v })),
+        }
+    }
